@@ -12,5 +12,43 @@ void _ZSt19__throw_logic_errorPKc(u8* m) { P(0, "std::__throw_logic_error (forei
 void _ZSt24__throw_out_of_range_fmtPKcz(u8* m, ...) { P(0, "std::__throw_out_of_range (foreign exception)"); PATH_END(); }
 void _ZSt17__throw_bad_allocv(void) { P(0, "std::__throw_bad_alloc"); PATH_END(); }
 #endif
+#ifdef NEED_STRING_NOGROW
+/* Strings in this kernel stay within the 15-char SSO buffer (bounds of the jobs guarantee it); the reallocation slow paths are cut: reaching one is
+   reported as an assertion failure (never silently ignored), and symbolic execution does not have to carry malloc(symbolic size) + memcpy around. */
+#define VSTR0 struct S_class_2estd_3a_3a__cxx11_3a_3abasic_string
+void _ZNSt7__cxx1112basic_stringIcSt11char_traitsIcESaIcEE9_M_mutateEmmPKcm(VSTR0* t, u64 a, u64 b, u8* s, u64 c) { P(0, "string model: capacity bound (15, SSO) exceeded - job bound too small for this tree"); PATH_END(); }
+#endif
+#ifdef NEED_STRING_REPLACE
+/* std::string::_M_replace(pos, len1, s, len2) by contract (libstdc++ layout {ptr,len,{cap|local[16]}}).  The real function decides between an
+   in-place and an aliasing-safe path by comparing pointers of DIFFERENT objects (_M_disjunct); under CBMC that comparison cannot be resolved during
+   symbolic execution and the infeasible aliasing path then destroys constant propagation for the enclosing object.  Contract used here: the source
+   does not alias the string's own buffer (asserted - every in-repo caller appends input-buffer bytes), capacity grows like libstdc++ (max(new, 2*cap)). */
+#define VSTR struct S_class_2estd_3a_3a__cxx11_3a_3abasic_string
+VSTR* _ZNSt7__cxx1112basic_stringIcSt11char_traitsIcESaIcEE10_M_replaceEmmPKcm(VSTR* t, u64 pos, u64 len1, u8* s, u64 len2) {
+  u64 old = t->f1; u8* data = t->f0.f0;
+  P(pos <= old && len1 <= old - pos, "string model: _M_replace range inside the string");
+  P(len2 == 0 || !__CPROVER_same_object(s, data), "string model: self-aliasing replace is outside the model");
+  u64 nl = old + len2 - len1, tail = old - pos - len1;
+  int local = (data == (u8*)&t->f2);
+  u64 cap = local ? 15 : t->f2.f0;
+  if (nl <= cap) {
+    if (tail && len1 != len2) irc_memmove(data + pos + len2, data + pos + len1, tail);
+    if (len2) irc_memcpy(data + pos, s, len2);
+  } else {
+#ifdef NEED_STRING_NOGROW
+    P(0, "string model: capacity bound (15, SSO) exceeded - job bound too small for this tree"); PATH_END();
+#else
+    u64 nc = nl > 2 * cap ? nl : 2 * cap;
+    u8* nd = malloc(nc + 1); __CPROVER_assume(nd != 0);
+    if (pos) irc_memcpy(nd, data, pos);
+    if (len2) irc_memcpy(nd + pos, s, len2);
+    if (tail) irc_memcpy(nd + pos + len2, data + pos + len1, tail);
+    t->f0.f0 = nd; t->f2.f0 = nc; data = nd;
+#endif
+  }
+  t->f1 = nl; data[nl] = 0;
+  return t;
+}
+#endif
 #endif
 #endif
